@@ -21,7 +21,7 @@ from ..utils import defaultdict2
 from .config import DiffConfig
 from .generic import (
     diff, diff_sequence_multilevel, compare_strings_approximate,
-    diff_string_lines, equal_json_values,
+    diff_string_lines, equal_json_values, diff_ignore,
 )
 
 __all__ = ["diff_notebooks"]
@@ -499,11 +499,6 @@ def diff_mime_bundle(a, b, path=None, config=None):
     for key in sorted(bkeys - akeys):
         di.add(key, b[key])
     return di.validated()
-
-
-def diff_ignore(*args, **kwargs):
-    """Always returns an empty diff"""
-    return []
 
 
 def diff_ignore_keys(inner_differ, ignore_keys):
